@@ -396,12 +396,14 @@ func (db *DB) insertOrUpdate(s *Schema, o Object, commit bool) (err error) {
 		return
 	}
 
-	if s.mustCache() {
-		db.cache.put(o)
-	}
-
 	if err = s.index(o); err != nil {
 		return
+	}
+
+	// caching only once the object is accepted by the index, otherwise
+	// an object rejected by a constraint would be served by cached reads
+	if s.mustCache() {
+		db.cache.put(o)
 	}
 
 	if s.asyncWritesEnabled() {
